@@ -360,7 +360,10 @@ def eval_gated(body, pt, local, use_bb, leaf, use_idx=None, on_def=None):
                     continue
                 defs.append((blk.idx, i, s))
     if c.loop_blocks_of(use_bb) and any(c.loop_blocks_of(d[0]) for d in defs):
-        raise NotEvaluable(("loop", local))
+        # inside a loop only definitions of the current iteration are considered: those that dominate the use
+        defs = [d for d in defs if c.dominates(d[0], use_bb)]
+        if not defs:
+            raise NotEvaluable(("loop", local))
 
     def term_at(b):
         return pt.at(b.idx, None).of_operand(b.term.discr)
